@@ -12,13 +12,14 @@ Reg0 == {[id |-> r.id, ev |-> r.ev, prio |-> r.prio, hk |-> FALSE, cond |-> IF r
 TInit == /\ tid \in 1..Len(TraceLines) /\ l = 1
          /\ reg = Reg0 /\ tasks = <<[ev |-> TraceLines[tid].qev, c |-> 0, todo |-> {}, st |-> "posted"]>> /\ snapp = <<{}>>
          /\ out = {} /\ clr = {} /\ inh = NoH /\ nops = 0 /\ act = [op |-> "init"]
+         /\ md = [kind |-> "none", st |-> "idle", hold |-> NoH, stask |-> 0, ptask |-> 0, pend |-> <<>>]
 \* cond = 9 never equals the posted c = 0, so QBegin would drop those handlers: the suite variant keeps them as optional
 SBegin == /\ tasks[1].st = "posted" /\ inh = NoH
           /\ tasks' = [tasks EXCEPT ![1].todo = Ids(reg), ![1].st = "run"] /\ snapp' = [snapp EXCEPT ![1] = reg]
-          /\ act' = [op |-> "qbegin", k |-> 1] /\ UNCHANGED <<reg, out, clr, inh, nops>>
+          /\ act' = [op |-> "qbegin", k |-> 1] /\ UNCHANGED <<reg, out, clr, inh, nops, md>>
 SkipOptional(h) == /\ tasks[1].st = "run" /\ inh = NoH /\ h \in tasks[1].todo /\ (\E x \in snapp[1] : x.id = h /\ x.cond = 9)
                    /\ tasks' = [tasks EXCEPT ![1].todo = @ \ {h}] /\ act' = [op |-> "skip", k |-> 1, h |-> h]
-                   /\ UNCHANGED <<reg, snapp, out, clr, inh, nops>>
+                   /\ UNCHANGED <<reg, snapp, out, clr, inh, nops, md>>
 Step(e) ==
     \/ e.op = "qbegin" /\ SBegin
     \/ e.op = "qremove" /\ RemoveQ(e.h)
